@@ -230,6 +230,11 @@ def handleRes (t : List String) : Option String :=
       let (_, st2) := runBatch cfg w "B:" false batch st1
       let (pOut, _) := runBatch cfg w "P:" false probes st2
       let pOut := if unstable then pOut.map (fun _ => "P:~") else pOut
+      -- with lowered limits a client's outcome depends on what the other clients have cached
+      -- meanwhile: no deterministic model side for the batch and the probes
+      let tight := nl < 24 || rl < 24
+      let bOut := if tight then bOut.map (fun _ => "B:~") else bOut
+      let pOut := if tight then pOut.map (fun _ => "P:~") else pOut
       pure (" | ".intercalate (wOut ++ bOut ++ pOut))
     | _ => none
   | _ => none
